@@ -7,6 +7,7 @@ import (
 	"flag"
 	"fmt"
 	"os"
+	"path/filepath"
 	"runtime"
 	"sort"
 	"sync"
@@ -26,13 +27,16 @@ type replayFile struct {
 	Tier      string          `json:"tier"`
 	Signature string          `json:"signature"`
 	Detail    string          `json:"detail"`
-	Scenario  scenario        `json:"scenario"`
+	Scenario  *scenario       `json:"scenario,omitempty"`
 	Request   *request        `json:"request,omitempty"`
 	Observed  *scenarioResult `json:"observed,omitempty"`
+	// violations found in a sequence of presentations against one gateway instance
+	Sequence    *sequence       `json:"sequence,omitempty"`
+	ObservedSeq *sequenceResult `json:"observed_sequence,omitempty"`
 }
 
 func genScenarios(tier string) []scenario {
-	kinds := []certKind{kProper, kProperBoth, kExpired, kNotYet, kServerOnly, kIssuerCA, kIssuerTenant, kCNNotBech32, kCNOtherPrefix}
+	kinds := []certKind{kProper, kProperBoth, kExpired, kNotYet, kServerOnly, kIssuerCA, kIssuerTenant, kSelfIssuerTenant, kCNNotBech32, kCNOtherPrefix}
 	bgs := [][2]bool{{false, false}, {true, true}}
 	serials := []string{"4242"}
 	if tier == "thorough" {
@@ -95,7 +99,41 @@ func doReplay(path string) int {
 		fmt.Fprintln(os.Stderr, "machinery:", err)
 		return 2
 	}
-	res, err := runScenario(rf.Scenario, rf.Tier, rf.Request)
+	if rf.Sequence != nil {
+		res, vs, err := runSequence(*rf.Sequence)
+		if err != nil {
+			fmt.Fprintln(os.Stderr, "machinery:", err)
+			return 2
+		}
+		hit := false
+		for _, st := range res.Steps {
+			fmt.Printf("replay: step %d present %s (op before: %q): oracle sound=%v must-accept=%v; VerifyPeerCertificate accepts=%v err=%q\n",
+				st.Step+1, st.Present, st.OpBefore, st.Sound, st.Strict, st.DirectOK, st.DirectErr)
+			for _, oc := range st.Outcomes {
+				fmt.Printf("replay:    %s -> status=%d err=%q calls=%v\n", oc.Request.url("", false), oc.Status, oc.Err, oc.Calls)
+			}
+		}
+		for _, v := range vs {
+			fmt.Printf("replay: %s: %s\n", v.Sig, v.Detail)
+			if v.Sig == rf.Signature {
+				hit = true
+			}
+		}
+		if hit {
+			fmt.Printf("VIOLATION property=%s replay=%s (reproduced %s)\n", prop, path, rf.Signature)
+			return 1
+		}
+		fmt.Printf("replay: %s not reproduced on this tree (%d other violations)\n", rf.Signature, len(vs))
+		if len(vs) > 0 {
+			return 1
+		}
+		return 0
+	}
+	if rf.Scenario == nil {
+		fmt.Fprintln(os.Stderr, "machinery: replay file has neither scenario nor sequence")
+		return 2
+	}
+	res, err := runScenario(*rf.Scenario, rf.Tier, rf.Request)
 	if err != nil {
 		fmt.Fprintln(os.Stderr, "machinery:", err)
 		return 2
@@ -123,12 +161,43 @@ func doReplay(path string) int {
 	return 0
 }
 
+func seqCost(q sequence) int {
+	c := 10 * len(q.Steps)
+	for _, o := range q.Ops {
+		if o != opNone {
+			c++
+		}
+	}
+	return c + q.Role
+}
+
+func noEvidence() bool { return os.Getenv("VERIF_NO_EVIDENCE") != "" }
+
+// writeReplay: /verif/replays/C09-<n>.json, or a scratch directory when evidence is suppressed
+func writeReplay(n int, rf replayFile) (string, error) {
+	if !noEvidence() {
+		return evlib.WriteReplay(prop, n, rf)
+	}
+	dir := filepath.Join(evlib.Root(), "build", "scratch-replays")
+	if err := os.MkdirAll(dir, 0o755); err != nil {
+		return "", err
+	}
+	p := filepath.Join(dir, fmt.Sprintf("%s-%d-%d.json", prop, os.Getpid(), n))
+	raw, err := json.MarshalIndent(rf, "", " ")
+	if err != nil {
+		return p, err
+	}
+	return p, os.WriteFile(p, append(raw, '\n'), 0o644)
+}
+
 type found struct {
 	sig    string
 	detail string
 	sc     scenario
 	rq     *request
 	obs    *scenarioResult
+	seq    *sequence
+	obsSeq *sequenceResult
 	count  int64
 }
 
@@ -152,11 +221,14 @@ func run(tier string) int {
 	var machN, stopped, done int32
 	var routes []string
 
-	ch := make(chan int, len(scs))
-	for i := range scs {
+	seqs := genSequences(tier)
+	ch := make(chan int, len(scs)+len(seqs))
+	for i := 0; i < len(scs)+len(seqs); i++ {
 		ch <- i
 	}
 	close(ch)
+	var seqDone, seqEvals, seqSteps int64
+	var seqSample *sequenceResult
 	workers := runtime.NumCPU()
 	if workers > 8 {
 		workers = 8
@@ -169,6 +241,70 @@ func run(tier string) int {
 			for i := range ch {
 				if atomic.LoadInt32(&stopped) != 0 || time.Now().After(deadline) {
 					atomic.StoreInt32(&stopped, 1)
+					continue
+				}
+				if i >= len(scs) {
+					q := seqs[i-len(scs)]
+					res, vs, err := runSequence(q)
+					if err != nil {
+						if atomic.AddInt32(&machN, 1) == 1 {
+							firstMach.Store(err.Error())
+						}
+						continue
+					}
+					mu.Lock()
+					seqDone++
+					for _, st := range res.Steps {
+						seqSteps++
+						cases := len(st.Outcomes) + 1
+						evals += int64(cases)
+						seqEvals += int64(cases)
+						if st.Present == pNone {
+							continue
+						}
+						raw, _ := json.Marshal([]interface{}{q, st.Step, "VerifyPeerCertificate"})
+						distinct[string(raw)] = true
+						reachedAny := st.DirectOK
+						for _, oc := range st.Outcomes {
+							raw, _ := json.Marshal([]interface{}{q, st.Step, oc.Request})
+							distinct[string(raw)] = true
+							for _, c := range oc.Calls {
+								if c.Scoped {
+									reachedAny = true
+								}
+							}
+						}
+						switch {
+						case st.Strict:
+							acceptExp += int64(cases)
+						case !st.Sound:
+							rejectExp += int64(cases)
+						default:
+							dontCare += int64(cases)
+						}
+						if reachedAny {
+							acceptObs += int64(cases)
+						} else {
+							rejectObs += int64(cases)
+						}
+					}
+					if seqSample == nil && len(q.Steps) == 2 && q.Steps[0] == pGenuine && q.Steps[1] == pForged && q.Ops[1] == opNone {
+						seqSample = res
+					}
+					for _, v := range vs {
+						f := bySig[v.Sig]
+						if f == nil || f.seq != nil && seqCost(q) < seqCost(*f.seq) { // keep the simplest counterexample
+							qq := q
+							var n int64
+							if f != nil {
+								n = f.count
+							}
+							f = &found{sig: v.Sig, detail: v.Detail, rq: v.Request, seq: &qq, obsSeq: res, count: n}
+							bySig[v.Sig] = f
+						}
+						f.count++
+					}
+					mu.Unlock()
 					continue
 				}
 				res, err := runScenario(scs[i], tier, nil)
@@ -251,7 +387,7 @@ func run(tier string) int {
 		fmt.Fprintf(os.Stderr, "machinery: %d scenarios could not be run; first: %v\n", machN, firstMach.Load())
 		return 2
 	}
-	exhaustive := stopped == 0 && int(done) == len(scs)
+	exhaustive := stopped == 0 && int(done) == len(scs) && int(seqDone) == len(seqs)
 
 	// samples
 	var samples []interface{}
@@ -291,6 +427,10 @@ func run(tier string) int {
 		mkSample(sampleResults[int(uint64(seed*13+5)%uint64(len(sampleResults)))], func(outcome) bool { return true }, 2)
 	}
 
+	if seqSample != nil {
+		samples = append(samples, map[string]interface{}{"sequence": seqSample.Sequence.String(), "chain_msgs": seqSample.ChainLog, "steps": seqSample.Steps})
+	}
+
 	known, err := evlib.LoadFindings()
 	if err != nil {
 		fmt.Fprintln(os.Stderr, "machinery: known_findings.json:", err)
@@ -311,19 +451,26 @@ func run(tier string) int {
 			continue
 		}
 		n++
-		obs := *f.obs
-		if f.rq != nil { // keep the replay file small: only the failing request's outcome
-			var keep []outcome
-			for _, oc := range obs.Outcomes {
-				if oc.Request == *f.rq {
-					keep = append(keep, oc)
-				}
-			}
-			obs.Outcomes = keep
+		rf := replayFile{Property: prop, Tier: tier, Signature: s, Detail: f.detail, Request: f.rq}
+		if f.seq != nil {
+			rf.Sequence, rf.ObservedSeq = f.seq, f.obsSeq
 		} else {
-			obs.Outcomes = nil
+			obs := *f.obs
+			if f.rq != nil { // keep the replay file small: only the failing request's outcome
+				var keep []outcome
+				for _, oc := range obs.Outcomes {
+					if oc.Request == *f.rq {
+						keep = append(keep, oc)
+					}
+				}
+				obs.Outcomes = keep
+			} else {
+				obs.Outcomes = nil
+			}
+			sc := f.sc
+			rf.Scenario, rf.Observed = &sc, &obs
 		}
-		p, err := evlib.WriteReplay(prop, n, replayFile{Property: prop, Tier: tier, Signature: s, Detail: f.detail, Scenario: f.sc, Request: f.rq, Observed: &obs})
+		p, err := writeReplay(n, rf)
 		if err != nil {
 			fmt.Fprintln(os.Stderr, "machinery:", err)
 			return 2
@@ -341,15 +488,21 @@ func run(tier string) int {
 				"%d scenarios = certificate kind x tenant{A,B} x chain entry under (CN,serial){absent, same DER valid, same DER revoked, other DER valid (=presented one is a forgery), other DER revoked} "+
 				"x background{other tenant holds the same serial, same owner holds another serial} x presentation{single, leaf+extra} x serial%s + no-certificate scenarios; "+
 				"each scenario = one direct VerifyPeerCertificate call + %d requests over real TLS 1.3 (every route of newRouter found by mux.Walk x dseq{own, other tenant's, non-numeric, uint64 overflow%s} x query{none, owner/provider/dseq naming the other tenant}). "+
-				"The chain is the real x/cert keeper written through the real msg server and read through the real gRPC querier. "+
+				"SEQUENCES on one gateway instance (one rest.NewServer / TLS config / chain): %d = every ordered pair%s of %d presentables {genuine, genuine other serial, other tenant's genuine, registered-but-expired/server-auth/not-yet-valid, registered self-signed whose issuer field names the other tenant, forgeries copying CN+serial (proper, expired, server-auth, CA-issued, foreign issuer name), forged other serial, unknown serial, forged other tenant, CN no account, no certificate} x op before the second step{none, revoke genuine, revoke other tenant's genuine} x role{A,B}; every step = 3 TLS requests + one callback call, judged by the same oracle as in isolation against the chain state at that moment. "+
+				"The chain is the real x/cert keeper written through the real msg server and read through the real gRPC querier; scope is judged against the account that published the certificate (subject CN). "+
 				"A case (scenario, request or callback) is non-trivial when a client certificate is presented and the route is lease/deployment-scoped (the authentication decision matters); distinct = set of canonical JSON encodings. "+
 				"Oracle classes (non-trivial cases): must-accept=%d, must-reject=%d, left-to-implementation=%d; observed reached-provider=%d, refused=%d.",
 				len(scs), map[string]string{"quick": "{4242}", "thorough": "{4242, 1, 2^64+5}"}[tier], len(genRequests(tier, routes, "x")), map[string]string{"quick": "", "thorough": ", -1, 07, 7.0; gseq/oseq{2, x, overflow}"}[tier],
+				len(seqs), map[string]string{"quick": "", "thorough": " and every ordered triple (role A, op{none, revoke genuine} before the second step)"}[tier], len(allPresentables),
 				acceptExp, rejectExp, dontCare, acceptObs, rejectObs),
 			Samples:    samples,
 			Exhaustive: exhaustive,
 			Extra: map[string]interface{}{
 				"scenarios":             len(scs),
+				"sequences":             len(seqs),
+				"sequences_run":         seqDone,
+				"sequence_steps":        seqSteps,
+				"sequence_evaluations":  seqEvals,
 				"scenarios_run":         done,
 				"routes":                routes,
 				"oracle_must_accept":    acceptExp,
@@ -372,11 +525,14 @@ func run(tier string) int {
 		WallS:      time.Since(start).Seconds(),
 		Violations: n,
 	}
-	if err := evlib.Write(ev); err != nil {
+	if noEvidence() {
+		// mutant runs must not overwrite the evidence of the real tree
+	} else if err := evlib.Write(ev); err != nil {
 		fmt.Fprintln(os.Stderr, "machinery: evidence:", err)
 		return 2
 	}
-	fmt.Printf("C09 %s: scenarios=%d evaluations=%d distinct_nontrivial=%d must-accept=%d must-reject=%d unconstrained=%d observed accept=%d reject=%d exhaustive=%v signatures=%d wall=%.1fs\n",
+	fmt.Printf("C09 %s: sequences=%d (steps %d, evaluations %d); ", tier, len(seqs), seqSteps, seqEvals)
+	fmt.Printf("scenarios=%[2]d evaluations=%[3]d distinct_nontrivial=%d must-accept=%d must-reject=%d unconstrained=%d observed accept=%d reject=%d exhaustive=%v signatures=%d wall=%.1fs\n",
 		tier, len(scs), evals, len(distinct), acceptExp, rejectExp, dontCare, acceptObs, rejectObs, exhaustive, len(sigs), time.Since(start).Seconds())
 	return exit
 }
